@@ -79,9 +79,46 @@ theorem serField_safe (cs : Bool) (capBits off : Nat) (f : Field) (v : FVal) (hc
           simp only [Bool.false_eq_true, if_false]
           rw [if_neg (by omega), write_none (by omega)]
           simp only [SafeWithin]; omega
+  | vbits lp cap sl sm cS cD lpc =>
+    cases v with
+    | prim => simp [serField, SafeWithin]
+    | count c =>
+      simp only [okCmp, Bool.and_eq_true, decide_eq_true_eq] at hc
+      simp only [fieldMaxB] at hb ⊢
+      simp only [serField]
+      by_cases h1 : c > cS.bound cap sl
+      · simp [h1, SafeWithin]
+      · simp only [h1, if_false]
+        rw [write_none (by omega)]
+        simp only
+        rw [if_neg (by omega), write_none (by omega)]
+        simp only [SafeWithin]; omega
+  | farr eb cap ec =>
+    cases v with
+    | count c => simp [serField, SafeWithin]
+    | prim =>
+      simp only [fieldMaxB] at hb ⊢
+      simp only [serField]
+      cases ec with
+      | true =>
+        simp only [if_true]
+        have := elemLoop_safe capBits eb cap cap 0 off (by omega)
+        cases hr : elemLoop capBits eb cap cap 0 off <;> rw [hr] at this <;> simp_all [SafeWithin]
+      | false =>
+        simp only [Bool.false_eq_true, if_false]
+        rw [write_none (by omega)]
+        simp only [SafeWithin]; omega
+  | fbits cap =>
+    cases v with
+    | count c => simp [serField, SafeWithin]
+    | prim =>
+      simp only [fieldMaxB] at hb ⊢
+      simp only [serField]
+      rw [write_none (by omega)]
+      simp only [SafeWithin]; omega
 
 /-- one field, ANY buffer size: the object is never left when the length comparison protects the real array -/
-theorem serField_noObj (cs : Bool) (capBits off : Nat) (f : Field) (v : FVal) (hc : okCmp cs f = true) :
+theorem serField_noObj_okSer (cs : Bool) (capBits off : Nat) (f : Field) (v : FVal) (hc : okSer cs f = true) :
     (serField cs capBits off f v).isOobObject = false := by
   cases f with
   | prim w checked =>
@@ -96,7 +133,7 @@ theorem serField_noObj (cs : Bool) (capBits off : Nat) (f : Field) (v : FVal) (h
     cases v with
     | prim => simp [serField, Out.isOobObject]
     | count c =>
-      simp only [okCmp, decide_eq_true_eq] at hc
+      simp only [okSer, decide_eq_true_eq] at hc
       simp only [serField]
       by_cases h1 : c > cmpBound cs cap sl
       · simp [h1, Out.isOobObject]
@@ -115,6 +152,58 @@ theorem serField_noObj (cs : Bool) (capBits off : Nat) (f : Field) (v : FVal) (h
             cases hw2 : write false capBits (off + lp) (c * eb) with
             | some r => exact write_notObj hw2
             | none => rfl
+  | vbits lp cap sl sm cS cD lpc =>
+    cases v with
+    | prim => simp [serField, Out.isOobObject]
+    | count c =>
+      simp only [okSer, decide_eq_true_eq] at hc
+      simp only [serField]
+      by_cases h1 : c > cS.bound cap sl
+      · simp [h1, Out.isOobObject]
+      · simp only [h1, if_false]
+        cases hw : write lpc capBits off lp with
+        | some r => exact write_notObj hw
+        | none =>
+          simp only
+          rw [if_neg (by omega)]
+          cases hw2 : write false capBits (off + lp) c with
+          | some r => exact write_notObj hw2
+          | none => rfl
+  | farr eb cap ec =>
+    cases v with
+    | count c => simp [serField, Out.isOobObject]
+    | prim =>
+      simp only [serField]
+      cases ec with
+      | true =>
+        simp only [if_true]
+        have := elemLoop_safe capBits eb cap cap 0 off (by omega)
+        cases hr : elemLoop capBits eb cap cap 0 off <;> rw [hr] at this <;> simp_all [SafeWithin, Out.isOobObject]
+      | false =>
+        simp only [Bool.false_eq_true, if_false]
+        cases hw2 : write false capBits off (cap * eb) with
+        | some r => exact write_notObj hw2
+        | none => rfl
+  | fbits cap =>
+    cases v with
+    | count c => simp [serField, Out.isOobObject]
+    | prim =>
+      simp only [serField]
+      cases hw2 : write false capBits off cap with
+      | some r => exact write_notObj hw2
+      | none => rfl
+
+theorem okSer_of_okCmp {cs : Bool} {f : Field} (h : okCmp cs f = true) : okSer cs f = true := by
+  rw [show okCmp cs f = (okSer cs f && okDe cs f) by cases f <;> simp [okCmp, okSer, okDe]] at h
+  simp_all
+
+theorem okDe_of_okCmp {cs : Bool} {f : Field} (h : okCmp cs f = true) : okDe cs f = true := by
+  rw [show okCmp cs f = (okSer cs f && okDe cs f) by cases f <;> simp [okCmp, okSer, okDe]] at h
+  simp_all
+
+theorem serField_noObj (cs : Bool) (capBits off : Nat) (f : Field) (v : FVal) (hc : okCmp cs f = true) :
+    (serField cs capBits off f v).isOobObject = false :=
+  serField_noObj_okSer cs capBits off f v (okSer_of_okCmp hc)
 
 theorem serFields_safe (cs : Bool) (capBits : Nat) : ∀ (fs : List Field) (vs : List FVal) (off : Nat),
     (∀ f ∈ fs, okCmp cs f = true) → off + sumMax (fieldMaxB cs) fs ≤ capBits →
@@ -186,6 +275,16 @@ theorem serField_checked (cs : Bool) (capBits off : Nat) (f : Field) (v : FVal) 
           simp only [if_true]
           exact (elemLoop_safe capBits eb sl c 0 (off + lp) (by omega)).notOob
         · rw [e]; rfl
+  | vbits lp cap sl sm cS cD lpc => simp [allChecked] at ha
+  | farr eb cap ec =>
+    simp only [allChecked] at ha
+    subst ha
+    cases v with
+    | count c => simp [serField, Out.isOob]
+    | prim =>
+      simp only [serField, if_true]
+      exact (elemLoop_safe capBits eb cap cap 0 off (by omega)).notOob
+  | fbits cap => simp [allChecked] at ha
 
 theorem serFields_checked (cs : Bool) (capBits : Nat) : ∀ (fs : List Field) (vs : List FVal) (off : Nat),
     (∀ f ∈ fs, okCmp cs f = true ∧ allChecked f = true) → (serFields cs capBits off fs vs).isOob = false
@@ -215,18 +314,96 @@ theorem le_maxMax (g : Field → Nat) : ∀ {l : List Field} {f : Field}, f ∈ 
     · subst e; omega
     · have := le_maxMax g e; omega
 
-theorem deField_safe (cs : Bool) (rd : Nat → Nat → Nat) (off : Nat) (f : Field) (hc : okCmp cs f = true) :
+theorem deField_safe_okDe (cs : Bool) (rd : Nat → Nat → Nat) (off : Nat) (f : Field) (hc : okDe cs f = true) :
     (deField cs rd off f).isOob = false := by
   cases f with
   | prim w c => simp [deField, Out.isOob]
   | varr lp eb cap sl lpc ec =>
-    simp only [okCmp, decide_eq_true_eq] at hc
+    simp only [okDe, decide_eq_true_eq] at hc
     simp only [deField]
     by_cases h1 : rd off lp > cmpBound cs cap sl
     · simp [h1, Out.isOob]
     · simp only [h1, if_false]
       rw [if_neg (by omega)]
       simp [Out.isOob]
+  | vbits lp cap sl sm cS cD lpc =>
+    simp only [okDe, decide_eq_true_eq] at hc
+    simp only [deField]
+    by_cases h1 : rd off lp > cD.bound cap sl
+    · simp [h1, Out.isOob]
+    · simp only [h1, if_false]
+      rw [if_neg (by omega)]
+      simp [Out.isOob]
+  | farr eb cap ec => simp [deField, Out.isOob]
+  | fbits cap => simp [deField, Out.isOob]
+
+theorem deField_safe (cs : Bool) (rd : Nat → Nat → Nat) (off : Nat) (f : Field) (hc : okCmp cs f = true) :
+    (deField cs rd off f).isOob = false :=
+  deField_safe_okDe cs rd off f (okDe_of_okCmp hc)
+
+/-! exactness: where the comparison does NOT protect the array there is an input that leaves the object -/
+
+/-- with room in the buffer the element loop runs into the end of the array when asked for more elements than it has -/
+theorem elemLoop_oob (capBits eb sl : Nat) : ∀ (r i off : Nat), i ≤ sl → sl < i + r → off + r * eb ≤ capBits →
+    elemLoop capBits eb sl r i off = .oobObject sl sl
+  | 0, i, off, h1, h2, _ => by omega
+  | r + 1, i, off, h1, h2, h3 => by
+    simp only [elemLoop]
+    have e : off + eb + r * eb = off + (r + 1) * eb := by rw [Nat.add_mul]; omega
+    by_cases hi : i ≥ sl
+    · have : i = sl := by omega
+      subst this
+      simp
+    · rw [if_neg hi, if_neg (by have := Nat.le_mul_of_pos_left eb (Nat.succ_pos r); omega)]
+      exact elemLoop_oob capBits eb sl r (i + 1) (off + eb) (by omega) (by omega) (by omega)
+
+theorem deField_oob_of_not_okDe (cs : Bool) (off : Nat) (f : Field) (h : okDe cs f = false) :
+    ∃ rd, (deField cs rd off f).isOobObject = true := by
+  cases f with
+  | prim w c => simp [okDe] at h
+  | varr lp eb cap sl lpc ec =>
+    simp only [okDe, decide_eq_false_iff_not, Nat.not_le] at h
+    refine ⟨fun _ _ => cmpBound cs cap sl, ?_⟩
+    simp only [deField]
+    rw [if_neg (by omega), if_pos h]
+    rfl
+  | vbits lp cap sl sm cS cD lpc =>
+    simp only [okDe, decide_eq_false_iff_not, Nat.not_le] at h
+    refine ⟨fun _ _ => cD.bound cap sl, ?_⟩
+    simp only [deField]
+    rw [if_neg (by omega), if_pos (by omega)]
+    rfl
+  | farr _ _ _ => simp [okDe] at h
+  | fbits _ => simp [okDe] at h
+
+theorem serField_oob_of_not_okSer (cs : Bool) (off : Nat) (f : Field) (h : okSer cs f = false) :
+    ∃ capBits v, (serField cs capBits off f v).isOobObject = true := by
+  cases f with
+  | prim w c => simp [okSer] at h
+  | varr lp eb cap sl lpc ec =>
+    simp only [okSer, decide_eq_false_iff_not, Nat.not_le] at h
+    refine ⟨off + lp + cmpBound cs cap sl * eb, .count (cmpBound cs cap sl), ?_⟩
+    simp only [serField]
+    rw [if_neg (by omega), write_none (by omega)]
+    cases ec with
+    | true =>
+      simp only [if_true]
+      rw [elemLoop_oob _ eb sl _ 0 (off + lp) (by omega) (by omega) (by omega)]
+      rfl
+    | false =>
+      simp only [Bool.false_eq_true, if_false]
+      rw [if_pos h]
+      rfl
+  | vbits lp cap sl sm cS cD lpc =>
+    simp only [okSer, decide_eq_false_iff_not, Nat.not_le] at h
+    refine ⟨off + lp + cS.bound cap sl, .count (cS.bound cap sl), ?_⟩
+    simp only [serField]
+    rw [if_neg (by omega), write_none (by omega)]
+    simp only
+    rw [if_pos (by omega)]
+    rfl
+  | farr _ _ _ => simp [okSer] at h
+  | fbits _ => simp [okSer] at h
 
 theorem deFields_safe (cs : Bool) (rd : Nat → Nat → Nat) : ∀ (fs : List Field) (off : Nat),
     (∀ f ∈ fs, okCmp cs f = true) → (deFields cs rd off fs).isOob = false
@@ -249,6 +426,13 @@ theorem okCmp_of_noOverride (cs : Bool) {f : Field} (h : noOverride f = true) : 
     simp only [noOverride, beq_iff_eq] at h
     subst h
     cases cs <;> simp [okCmp, cmpBound]
+  | vbits lp cap sl sm cS cD _ =>
+    simp only [noOverride, beq_iff_eq] at h
+    subst h
+    have : sl ≤ 8 * bitsStorBytes sl sl sm := by cases sm <;> simp [bitsStorBytes] <;> omega
+    cases cS <;> cases cD <;> simp [okCmp, Cmp.bound, this]
+  | farr _ _ _ => rfl
+  | fbits _ => rfl
 
 theorem fieldMaxB_of_noOverride (cs : Bool) {f : Field} (h : noOverride f = true) : fieldMaxB cs f = fieldMax f := by
   cases f with
@@ -257,6 +441,12 @@ theorem fieldMaxB_of_noOverride (cs : Bool) {f : Field} (h : noOverride f = true
     simp only [noOverride, beq_iff_eq] at h
     subst h
     cases cs <;> simp [fieldMaxB, fieldMax, cmpBound]
+  | vbits lp cap sl sm cS cD _ =>
+    simp only [noOverride, beq_iff_eq] at h
+    subst h
+    cases cS <;> simp [fieldMaxB, fieldMax, Cmp.bound]
+  | farr _ _ _ => rfl
+  | fbits _ => rfl
 
 theorem sumMax_congr {g h : Field → Nat} : ∀ {l : List Field}, (∀ f ∈ l, g f = h f) → sumMax g l = sumMax h l
   | [], _ => rfl
@@ -270,8 +460,235 @@ theorem maxMax_congr {g h : Field → Nat} : ∀ {l : List Field}, (∀ f ∈ l,
     simp only [maxMax]
     rw [H x (by simp), maxMax_congr fun f hf => H f (by simp [hf])]
 
-/-- okCmp with the comparison against the real array always holds -/
-theorem okCmp_storage (f : Field) : okCmp true f = true := by
-  cases f <;> simp [okCmp, cmpBound]
+/-- okCmp with the comparison against the real array holds for every non-bit array; a bit array is compared with the
+    literal or the macro whatever `cmpStorage` says: there it is the condition `okBits` -/
+theorem okCmp_storage (f : Field) (h : okBits f = true) : okCmp true f = true := by
+  cases f <;> simp_all [okCmp, okBits, cmpBound]
+
+theorem okCmp_iff (cs : Bool) (f : Field) : okCmp cs f = (okSer cs f && okDe cs f) := by
+  cases f <;> simp [okCmp, okSer, okDe]
+
+/-- the shipped dimension / comparison pairs of a bit array that are safe for every user-reduced capacity -/
+theorem okBits_vbits (lp cap sl : Nat) (sm : Bool) (cS cD : Cmp) (lpc : Bool) (hred : sl ≤ cap)
+    (hS : sm = true → cS = .macro) (hD : sm = true → cD = .macro) : okBits (.vbits lp cap sl sm cS cD lpc) = true := by
+  cases sm
+  · cases cS <;> cases cD <;> simp [okBits, Cmp.bound, bitsStorBytes] <;> omega
+  · rw [hS rfl, hD rfl]; simp [okBits, Cmp.bound, bitsStorBytes]; omega
+
+/-! totality: an object of the generated type never makes the routine end anywhere but in success or an error code -/
+
+def Out.isShape : Out → Bool
+  | .shape => true
+  | _ => false
+
+/-- the routine ended by returning: success or an error code -/
+def Out.isExit : Out → Bool
+  | .ok _ => true
+  | .err _ => true
+  | _ => false
+
+theorem Out.isExit_of {r : Out} (h1 : r.isOob = false) (h2 : r.isShape = false) : r.isExit = true := by
+  cases r <;> simp_all [Out.isOob, Out.isShape, Out.isExit]
+
+theorem write_notShape {checked : Bool} {capBits off len : Nat} {r : Out}
+    (h : write checked capBits off len = some r) : r.isShape = false := by
+  rcases write_cases checked capBits off len with e | e | e <;> rw [e] at h <;> cases h <;> rfl
+
+theorem elemLoop_notShape (capBits eb sl : Nat) : ∀ (r i off : Nat), (elemLoop capBits eb sl r i off).isShape = false
+  | 0, _, _ => rfl
+  | r + 1, i, off => by
+    simp only [elemLoop]
+    split
+    · rfl
+    · split
+      · rfl
+      · exact elemLoop_notShape capBits eb sl r (i + 1) (off + eb)
+
+theorem padEnd_isShape (capBits : Nat) (r : Out) : (padEnd capBits r).isShape = r.isShape := by
+  cases r <;> simp only [padEnd] <;> (try split) <;> rfl
+
+theorem serField_notShape (cs : Bool) (capBits off : Nat) (f : Field) (v : FVal) (hf : FVal.fits f v = true) :
+    (serField cs capBits off f v).isShape = false := by
+  cases f with
+  | prim w checked =>
+    cases v with
+    | prim =>
+      simp only [serField]
+      cases hw : write checked capBits off w with
+      | some r => exact write_notShape hw
+      | none => rfl
+    | count c => simp [FVal.fits] at hf
+  | varr lp eb cap sl lpc ec =>
+    cases v with
+    | prim => simp [FVal.fits] at hf
+    | count c =>
+      simp only [serField]
+      split
+      · rfl
+      · cases hw : write lpc capBits off lp with
+        | some r => exact write_notShape hw
+        | none =>
+          simp only
+          split
+          · exact elemLoop_notShape _ _ _ _ _ _
+          · split
+            · rfl
+            · cases hw2 : write false capBits (off + lp) (c * eb) with
+              | some r => exact write_notShape hw2
+              | none => rfl
+  | vbits lp cap sl sm cS cD lpc =>
+    cases v with
+    | prim => simp [FVal.fits] at hf
+    | count c =>
+      simp only [serField]
+      split
+      · rfl
+      · cases hw : write lpc capBits off lp with
+        | some r => exact write_notShape hw
+        | none =>
+          simp only
+          split
+          · rfl
+          · cases hw2 : write false capBits (off + lp) c with
+            | some r => exact write_notShape hw2
+            | none => rfl
+  | farr eb cap ec =>
+    cases v with
+    | count c => simp [FVal.fits] at hf
+    | prim =>
+      simp only [serField]
+      split
+      · exact elemLoop_notShape _ _ _ _ _ _
+      · cases hw2 : write false capBits off (cap * eb) with
+        | some r => exact write_notShape hw2
+        | none => rfl
+  | fbits cap =>
+    cases v with
+    | count c => simp [FVal.fits] at hf
+    | prim =>
+      simp only [serField]
+      cases hw2 : write false capBits off cap with
+      | some r => exact write_notShape hw2
+      | none => rfl
+
+theorem serFields_notShape (cs : Bool) (capBits : Nat) : ∀ (fs : List Field) (vs : List FVal) (off : Nat),
+    fitsAll fs vs = true → (serFields cs capBits off fs vs).isShape = false
+  | [], [], off, _ => rfl
+  | [], _ :: _, off, h => by simp [fitsAll] at h
+  | _ :: _, [], off, h => by simp [fitsAll] at h
+  | f :: fs, v :: vs, off, h => by
+    simp only [fitsAll, Bool.and_eq_true] at h
+    have h1 := serField_notShape cs capBits off f v h.1
+    simp only [serFields]
+    cases hr : serField cs capBits off f v with
+    | ok off' => exact serFields_notShape cs capBits fs vs off' h.2
+    | err e => rfl
+    | shape => rw [hr] at h1; simp [Out.isShape] at h1
+    | oobBuffer a b => rfl
+    | oobObject a b => rfl
+
+theorem nth?_fits : ∀ {fs : List Field} {vs : List FVal} {k : Nat} {f : Field}, fitsAll fs vs = true → nth? fs k = some f →
+    ∃ v, nth? vs k = some v ∧ FVal.fits f v = true
+  | [], _, _, _, _, h => by simp [nth?] at h
+  | _ :: _, [], _, _, hf, _ => by simp [fitsAll] at hf
+  | g :: fs, v :: vs, 0, f, hf, h => by
+    simp only [fitsAll, Bool.and_eq_true] at hf
+    simp only [nth?, Option.some.injEq] at h
+    subst h
+    exact ⟨v, rfl, hf.1⟩
+  | g :: fs, v :: vs, k + 1, f, hf, h => by
+    simp only [fitsAll, Bool.and_eq_true] at hf
+    simp only [nth?] at h ⊢
+    exact nth?_fits hf.2 h
+
+/-- an object of the generated type: serialization never ends in the model's `shape` outcome -/
+theorem ser_notShape (checkCap cs : Bool) (m : Msg) (o : MObj) (capBytes : Nat) (hfit : MObj.fits m o = true) :
+    (ser checkCap cs m o capBytes).isShape = false := by
+  unfold ser
+  by_cases hc : (checkCap && decide (8 * capBytes < msgMax fieldMax m)) = true
+  · simp [hc, Out.isShape]
+  · simp only [hc, Bool.false_eq_true, ↓reduceIte]
+    cases m with
+    | struct fs =>
+      cases o with
+      | struct vs =>
+        simp only [MObj.fits] at hfit
+        rw [padEnd_isShape]
+        exact serFields_notShape cs _ fs vs 0 hfit
+      | union _ _ => simp [MObj.fits] at hfit
+    | union tb tc fs =>
+      cases o with
+      | struct _ => simp [MObj.fits] at hfit
+      | union tag vs =>
+        simp only [MObj.fits] at hfit
+        simp only
+        cases hw : write tc (8 * capBytes) 0 tb with
+        | some r => exact write_notShape hw
+        | none =>
+          simp only
+          cases hf : nth? fs tag with
+          | none => rfl
+          | some f =>
+            obtain ⟨v, hv, hfv⟩ := nth?_fits hfit hf
+            rw [hv]
+            simp only
+            rw [padEnd_isShape]
+            exact serField_notShape cs _ tb f v hfv
+
+theorem deField_notShape (cs : Bool) (rd : Nat → Nat → Nat) (off : Nat) (f : Field) : (deField cs rd off f).isShape = false := by
+  cases f <;> simp only [deField] <;> (repeat' split) <;> rfl
+
+theorem deFields_notShape (cs : Bool) (rd : Nat → Nat → Nat) : ∀ (fs : List Field) (off : Nat), (deFields cs rd off fs).isShape = false
+  | [], off => rfl
+  | f :: fs, off => by
+    have h1 := deField_notShape cs rd off f
+    simp only [deFields]
+    cases hr : deField cs rd off f with
+    | ok off' => exact deFields_notShape cs rd fs off'
+    | err e => rfl
+    | shape => rw [hr] at h1; simp [Out.isShape] at h1
+    | oobBuffer a b => rfl
+    | oobObject a b => rfl
+
+theorem de_notShape (cs : Bool) (rd : Nat → Nat → Nat) (m : Msg) : (de cs rd m).isShape = false := by
+  cases m with
+  | struct fs => exact deFields_notShape cs rd fs 0
+  | union tb tc fs =>
+    simp only [de]
+    cases hf : nth? fs (rd 0 tb) with
+    | none => rfl
+    | some f => exact deField_notShape cs rd tb f
+
+/-! rows of the generated array-kind table -/
+
+/-- a safe row yields, for every capacity and every user capacity not above it, a field whose comparisons protect its array -/
+theorem Row.safe_field (r : Row) (h : r.safe = true) (lp eb cap usr : Nat) (hu : usr ≤ cap) :
+    ∃ f, r.field lp eb cap usr = some f ∧ okCmp r.cs f = true := by
+  rcases r with ⟨kind, ov, le, varLen, bits, overridable, storMacro, cS, cD, lpc, ec⟩
+  cases varLen <;> cases bits <;> cases overridable <;> cases storMacro <;> cases cS <;> cases cD <;>
+    simp_all [Row.safe, Row.field, Row.cs, RCmp.safeFor, RCmp.toBits, okCmp, cmpBound, Cmp.bound, bitsStorBytes] <;> omega
+
+/-- … and an unsafe row that the model can express does not: DSDL capacity 16, user capacity 1 -/
+theorem Row.unsafe_field (r : Row) (h : r.safe = false) (lp eb : Nat) (f : Field) (hf : r.field lp eb 16 1 = some f) :
+    okCmp r.cs f = false := by
+  rcases r with ⟨kind, ov, le, varLen, bits, overridable, storMacro, cS, cD, lpc, ec⟩
+  cases varLen <;> cases bits <;> cases overridable <;> cases storMacro <;> cases cS <;> cases cD <;>
+    simp_all [Row.safe, Row.field, Row.cs, RCmp.safeFor, RCmp.toBits] <;>
+    (subst hf; simp [okCmp, cmpBound, Cmp.bound, bitsStorBytes])
+
+/-- `cmpStorage` speaks about non-bit variable-length arrays only -/
+theorem okCmp_cs_irrelevant (cs cs' : Bool) (f : Field) (h : ∀ lp eb cap sl a b, f ≠ .varr lp eb cap sl a b) :
+    okCmp cs f = okCmp cs' f := by
+  cases f with
+  | varr lp eb cap sl a b => exact absurd rfl (h lp eb cap sl a b)
+  | _ => rfl
+
+theorem Row.field_not_varr (r : Row) (hv : r.isVarr = false) (lp eb cap usr : Nat) (f : Field)
+    (hf : r.field lp eb cap usr = some f) : ∀ lp' eb' cap' sl a b, f ≠ .varr lp' eb' cap' sl a b := by
+  rcases r with ⟨kind, ov, le, varLen, bits, overridable, storMacro, cS, cD, lpc, ec⟩
+  intro lp' eb' cap' sl a b e
+  subst e
+  cases varLen <;> cases bits <;> simp_all [Row.isVarr, Row.field] <;>
+    (cases cS <;> cases cD <;> simp_all [RCmp.toBits])
 
 end NunavutVerif.CBuf
